@@ -20,7 +20,7 @@ def DataFrame_left_join (truth : Term → Bool) : Out :=
   let found' : Term := (Term.app "item0" [tup3_1']);
   let src' : Term := (Term.app "item1" [tup3_1']);
   let eff0 : Term := (Term.app "for" [(Term.app "tuple" [(Term.sym "colname"), (Term.sym "column")]), (Term.app ".items" [(Term.sym "self")]), (Term.app "block" [(Term.app "yield" [(Term.app "tuple" [(Term.sym "colname"), (Term.app ".copy" [(Term.sym "column")])])])])]);
-  let eff1 : Term := (Term.app "for" [(Term.app "tuple" [(Term.sym "colname"), (Term.sym "column")]), (Term.app ".items" [other']), (Term.app "block" [(Term.app "if" [(Term.app "In" [(Term.sym "colname"), by2']), (Term.app "block" [(Term.sym "continue")]), (Term.app "block" [])]), (Term.app "if" [(Term.app "In" [(Term.sym "colname"), (Term.sym "self")]), (Term.app "block" [(Term.sym "continue")]), (Term.app "block" [])]), (Term.app "assign" [(Term.sym "value"), (Term.app ".na_value" [(Term.sym "column")])]), (Term.app "assign" [(Term.sym "dtype"), (Term.app ".na_dtype" [(Term.sym "column")])]), (Term.app "assign" [(Term.sym "new"), (Term.app "Vector.fast([value], dtype).repeat" [(Term.app ".nrow" [(Term.sym "self")])])]), (Term.app "store" [(Term.app "getitem" [(Term.sym "new"), found']), (Term.app "getitem" [(Term.sym "column"), (Term.app "getitem" [src', found'])])]), (Term.app "yield" [(Term.app "tuple" [(Term.sym "colname"), (Term.app ".copy" [(Term.sym "new")])])])])]);
+  let eff1 : Term := (Term.app "for" [(Term.app "tuple" [(Term.sym "colname"), (Term.sym "column")]), (Term.app ".items" [other']), (Term.app "block" [(Term.app "if" [(Term.app "In" [(Term.sym "colname"), by2']), (Term.app "block" [(Term.sym "continue")]), (Term.app "block" [])]), (Term.app "if" [(Term.app "In" [(Term.sym "colname"), (Term.sym "self")]), (Term.app "block" [(Term.sym "continue")]), (Term.app "block" [])]), (Term.app "assign" [(Term.sym "value"), (Term.app ".na_value" [(Term.sym "column")])]), (Term.app "assign" [(Term.sym "dtype"), (Term.app ".na_dtype" [(Term.sym "column")])]), (Term.app "assign" [(Term.sym "new"), (Term.app ".repeat" [(Term.app "Vector.fast" [(Term.app "list" [(Term.sym "value")]), (Term.sym "dtype")]), (Term.app ".nrow" [(Term.sym "self")])])]), (Term.app "store" [(Term.app "getitem" [(Term.sym "new"), found']), (Term.app "getitem" [(Term.sym "column"), (Term.app "getitem" [src', found'])])]), (Term.app "yield" [(Term.app "tuple" [(Term.sym "colname"), (Term.app ".copy" [(Term.sym "new")])])])])]);
   let value' : Term := (Term.app "value-after-loop" [(Term.sym "value"), eff1]);
   let dtype' : Term := (Term.app "value-after-loop" [(Term.sym "dtype"), eff1]);
   let new' : Term := (Term.app "value-after-loop" [(Term.sym "new"), eff1]);
